@@ -410,7 +410,8 @@ CLAIM = {
             "rule over all CastFunctionSet rows (Safe ⊆ lossless pairs computed from type ranges; PrimToPrim storage = announced ids). "
             "These are the structural preconditions of exact-or-error casting that hold or fail independently of data; kernel values "
             "are not statically decidable here. (NARROW) every narrowing numeric cast kernel obtains its result from a checked conversion "
-            "(11 kernels that do not are listed as known findings). Plus: cast kernels, formatters and round() never order-compare a signed quotient with zero (a truncated quotient has lost the dividend's sign).",
+            "(11 kernels that do not are listed as known findings). Plus: cast kernels, formatters and round() never order-compare a signed quotient with zero (a truncated quotient has lost the dividend's sign)."
+            " Plus RTWORDS (every unit word the interval formatter prints is accepted by the parser) and PRECCHK (decimal-producing cast kernels write only behind validate_precision; the text parser compares with the precision after the last value-changing step).",
     "note": "trusted: rustc MIR/HIR, the lossless relation coded in rules/c13.py (integer range inclusion, float widening, identity, Null)",
     "technique": "static analysis: MIR edge-dominance (guard provenance) + const-table agreement (rustc_private driver)",
 }
